@@ -10,7 +10,7 @@ Families
         well-formed skeleton - written on the part's own line ("inline") and on a continuation
         line of its own ("cont")
   (ii)  the single-edit neighbourhood of well-formed blocks rendered by C10's generator:
-        insert each of 12 characters at every position, delete every character, duplicate /
+        insert each of 20 characters (incl. 8 non-line-ending separators) at every position, delete every character, duplicate /
         delete / swap every line, truncate at every position
   (iii) degenerate blocks (empty, one-line, tokens only, missing identifier, deprecated tag forms,
         duplicate parameters / tags, CR/LF mixes, non-ASCII text, code around the tokens)
@@ -59,7 +59,7 @@ SKEL = ['/**', ' * foo_bar: (skip)', ' * @p: (in): a value', ' *', ' * Does thin
 SKEL_AT = {'ident': (1, ' * foo_bar:'), 'param': (2, ' * @p:'), 'returns': (6, ' * Returns:')}
 POSITIONS = ('ident', 'param', 'returns')
 
-INSERT_CHARS = ['(', ')', ':', ' ', '@', '*', '/', '\n', '\r', '=', 'x', '\u00e9']
+INSERT_CHARS = ['(', ')', ':', ' ', '@', '*', '/', '\n', '\r', '=', 'x', '\u00e9'] + B.ODD_SEPARATORS
 
 _GOOD_VIEWS = {}
 
@@ -430,6 +430,13 @@ def degenerate():
         '/**\n * foo_bar:\n * @p: x\n * (late (\n */', '/**\n * foo_bar:\n *\n * Returns:\n *   (\n */',
         '/**\n * foo_bar:\n *\n * Returns: x\n *   (late)\n */', '/**\n' + ' * foo_bar: (' + 'a' * 300 + '\n */',
     ]
+    # a character that str.splitlines() would break at, but that is not a comment line ending, stands on a line
+    # BEFORE the diagnosed one: line number and quoted line of the later diagnostics must not shift
+    for c in B.ODD_SEPARATORS:
+        D.append('/**\n * foo_bar:\n * @p: a' + c + 'value\n * @q: (\n */')
+        D.append('/**\n * foo_bar: (skip)\n *\n * Does' + c + 'things' + c + 'twice.\n *\n * Returns: (frob\n * Since: )\n */')
+        D.append('/**\n * foo_bar: (attributes k=x' + c + 'y) (\n * @p: ' + c + ' x\n * @p: again\n */')
+        D.append('/**\r\n * foo_bar:\r\n *\r\n * ' + c + '\r\n * Returns: a\r\n * Returns: ((\r\n */')
     return D
 
 
@@ -619,7 +626,7 @@ def run(ctx):
     bases = base_blocks(n_bases)
     ctx.set(rule='(i) every string over %r up to the stated length as the annotation field of the identifier / '
                  'parameter / Returns line of a fixed skeleton (inline and on a continuation line); (ii) every single '
-                 'edit (12 insertable characters x every position, every deletion, every truncation, every line '
+                 'edit (20 insertable characters x every position, every deletion, every truncation, every line '
                  'duplicated/deleted/swapped) of %d well-formed blocks from C10\'s generator; (iii) %d degenerate blocks. '
                  'Each input is parsed by the real parse_comment_blocks between two clean blocks with display on and '
                  'off and judged by clauses (a)-(d) of the module docstring. states = distinct inputs, transitions = '
